@@ -59,3 +59,21 @@ Definition check_sql (c : sql_case) : N :=
       c1 + (if ok (sq_rows_a c) && ok (sq_rows_b c) && colsok (sq_rows_a c) && colsok (sq_rows_b c) then 0 else 4)
   | Err _ => c1
   end.
+
+(* C17: a raw tree (assembled without the engine's help) conformed by the engine and executed on the
+   database under both scan orders, judged against the specification of the program only (no model tree).
+   mode 0: exact list; 1: bag.  bit 4: rows contradict the specification or have wrong columns. *)
+Record raw_case := RAWCase {
+  rw_prog : mprog;
+  rw_env : list (positive * rows);
+  rw_rows_a : rows;
+  rw_rows_b : rows;
+  rw_mode : N }.
+
+Definition check_raw (c : raw_case) : N :=
+  let env := mkenv (rw_env c) in
+  if negb (kd_mprog env (rw_prog c)) then 1000 else
+  let s := spec_mprog env (rw_prog c) in
+  let ok l := match rw_mode c with 0 => rows_eqb s l | _ => bag_eqb s l end in
+  let colsok l := forallb (fun r : row => bool_decide (dom r = mprog_cols (rw_prog c))) l in
+  if ok (rw_rows_a c) && ok (rw_rows_b c) && colsok (rw_rows_a c) && colsok (rw_rows_b c) then 0 else 4.
